@@ -53,7 +53,20 @@ func (isn *InlineSchemaNamer) Name(key string, schema *spec.Schema, aschema *Ana
 		//
 		// NOTE: this is important if such referers use arbitrary JSON pointers.
 		an := New(isn.Spec)
+		keyRef := spec.MustCreateRef(key)
+		movedFrom := keyRef.String() + "/"
 		for k, v := range an.references.allRefs {
+			if strings.HasPrefix(v.String(), movedFrom) {
+				// a JSON pointer to some place inside the schema which has just moved: follow it
+				inside := spec.MustCreateRef(defRef.String() + "/" + strings.TrimPrefix(v.String(), movedFrom))
+				debugLog("found a $ref inside a rewritten schema: %s points to %s", k, v.String())
+				if err := replace.UpdateRef(isn.Spec, k, inside); err != nil {
+					return err
+				}
+
+				continue
+			}
+
 			r, erd := replace.DeepestRef(isn.opts.Swagger(), isn.opts.ExpandOpts(false), v)
 			if erd != nil {
 				return ErrAtKey(k, erd)
